@@ -345,21 +345,21 @@ pub fn same<A: serde::Serialize, B: serde::Serialize>(name: &str, key: &str, a: 
 
 /// "Do equal challenge digests force two 32-byte public values (blobs) to be equal?"  Both values are taken to be
 /// canonical (< q): the library turns them into scalars, so two byte strings congruent mod q are the same public value.
-/// Candidates: the second blob equal to the first with one 64-bit word changed (what a slip in the word-wise conversion
-/// to a scalar would let through); then the general query, which must be unsat.
+/// Candidates: the second blob equal to the first with one byte changed (what a slip in the word-wise conversion
+/// to a scalar - a dropped, duplicated or misaligned word - would let through); then the general query, which must be unsat.
 pub fn blob_binding(name: &str, hyps: &[F], same: &F, a: u32, b: u32) -> Option<std::collections::HashMap<String, String>> {
     let q = F::and(vec![same.clone(), F::BlobEq(a, b).not(), F::BlobLtQ(a), F::BlobLtQ(b)]);
     let sha = sx::with(|ar| ar.vars[a as usize].shadow);
     // make the first value canonical for the candidates: clear its top word's high bits
     let mut base = sha;
     base[3] &= 0x0FFF_FFFF_FFFF_FFFF;
-    for k in 0..4 {
+    for j in 0..32 {
         let mut other = base;
-        other[k] ^= 0x0000_0000_0001_0000;
+        other[j / 8] ^= 1u64 << (8 * (j % 8));
         let mut ov = std::collections::HashMap::new();
         ov.insert(a, base);
         ov.insert(b, other);
-        if let Some(m) = eng::candidate_model_with(&format!("{} [candidate: word {} differs]", name, k), "REFUTE", hyps, &q, ov) {
+        if let Some(m) = eng::candidate_model_with(&format!("{} [candidate: byte {} differs]", name, j), "REFUTE", hyps, &q, ov) {
             return Some(m);
         }
     }
@@ -367,4 +367,24 @@ pub fn blob_binding(name: &str, hyps: &[F], same: &F, a: u32, b: u32) -> Option<
         (Tri::Yes, m) => m,
         _ => None,
     }
+}
+
+/// Variants of a context byte string that must all give a different `Context`: single-byte changes plus length-only
+/// changes (a trailing NUL appended, the last byte dropped) - the latter catch non-injective padding / truncation.
+pub fn context_variants(base: &[u8], positions: &[usize]) -> Vec<(String, Vec<u8>)> {
+    let mut out = vec![];
+    for p in positions {
+        if *p < base.len() {
+            let mut b = base.to_vec();
+            b[*p] ^= 1;
+            out.push((format!("context byte {}", p), b));
+        }
+    }
+    let mut b = base.to_vec();
+    b.push(0);
+    out.push(("context with a trailing NUL appended".to_string(), b));
+    if base.len() > 1 {
+        out.push(("context with its last byte dropped".to_string(), base[..base.len() - 1].to_vec()));
+    }
+    out
 }
